@@ -56,6 +56,12 @@ CLAIMED = {
         "note": "Samples the sequence space by seed (the property text asks for exhaustive bounded enumeration, which is model checking, not this family); evidence reports distinct op prefixes of length <= 3 visited. CPU only; exceptions under float16/bfloat16 are tolerated and counted.",
         "technique": TECH + "seeded operation sequences against a reference dtype state machine, default-dtype fault",
     },
+    "C15": {
+        "text": "fit() is run in seeded configurations (k = 0..3 epochs, n_paths, n_times, validation on/off, optimiser class or instance of SGD / SGD+momentum / Adam / Adadelta, materialised / lazy / dropout models, prev_hedge, H in {1,2}, initial states, 4 criteria, a second fit on the same hedger) under ambient grad-mode (F5) and leftover train/eval mode (F6) faults, and its whole interaction history is recorded through public seams (recording optimiser subclass, simulate wrapper, RecModel, recording criterion). History oracles: sequence grammar per epoch (one training batch, one loss, one step, n_times validation batches), exactly k steps of the supplied/constructed optimiser over exactly the model parameters, batch size / initial state forwarded, fresh batches, training forwards in train mode with grad, validation forwards in eval mode without grad, returned history = mean of the recorded validation losses (None when off), parameters change only inside step(); step-local refinement: the gradient stepped on equals the gradient of the loss recomputed on that epoch's recorded batch with the pre-step parameters (rules out accumulation); final parameters and history equal an explicit simulate/loss/backward/step reference loop under the same torch seed (F7).",
+        "design_ref": "DESIGN.md 6/C15",
+        "note": "Bitwise comparisons rely on single-threaded deterministic torch; lazy models are exempt from the reference-loop equality (materialisation consumes randomness) but not from the step-local check.",
+        "technique": TECH + "recorded optimiser/simulator/mode interaction history checked against an executable reference trainer under RNG replay",
+    },
     "C16": {
         "text": "Seeded search over interleaved multi-actor histories (simulate / hedge / P&L / loss / price / fit / casts / feature, Black-Scholes, criterion and functional calls) on shared instruments and hedgers, with faults F2 (volatile-state corruption), F3 (restart from durable state), F7 (RNG replay), F8 (callback exception) and F10 (re-simulation by another actor). Invariant after every operation: every buffer of every instrument and every caller tensor is bitwise unchanged; history oracle: a fresh clone built from durable state gives bitwise the same result. Sampling, not proof.",
         "design_ref": "DESIGN.md 6/C16",
